@@ -252,12 +252,12 @@ def gen_header(ctx, eng, tables, n_rest, name="h", with_sigs=False):
                      counter_signatures=VecV(sigs, None, "vec"), rest=VecV(rest, None, "vec"))
 
 
-def gen_key(ctx, eng, tables, n_params, name="k"):
+def gen_key(ctx, eng, tables, n_params, name="k", text_max=1):
     kty = Adt("RegisteredLabel", "Assigned", [Sc("isize", 2, enum="KeyType")])
     alg = opt(ctx, name + ".alg", lambda: Adt("RegisteredLabelWithPrivate", "Assigned", [Sc("isize", -7, enum="Algorithm")]))
     ops = SetV([Adt("RegisteredLabel", "Assigned", [Sc("isize", 1, enum="KeyOperation")])]
                if ctx.choose(2, "ops@" + name) else [])
-    params = [Tup([gen_label(ctx, "%s.p%d" % (name, i)), Adt("Value", "Null", [])]) for i in range(n_params)]
+    params = [Tup([gen_label(ctx, "%s.p%d" % (name, i), text_max), Adt("Value", "Null", [])]) for i in range(n_params)]
     return mk_struct(eng.impls, "CoseKey", kty=kty, key_id=small_bytes(ctx, name + ".kid"), alg=alg, key_ops=ops,
                      base_iv=small_bytes(ctx, name + ".biv"), params=VecV(params, None, "vec"))
 
